@@ -251,3 +251,131 @@ Proof.
   - intros smidx cells Hin. clear - HF Hin. induction HF as [|z row l r Hp _ IH]; [destruct Hin|].
     destruct Hin as [E|Hin]; [|auto]. destruct Hp as (i & a & -> & H1 & H2 & H3). rewrite H3 in E. inversion E; subst. exists i, a. auto.
 Qed.
+
+(* ------------------------------------------------------------------ any selection of sources *)
+Lemma s_positions_range M : forall k z, In z (s_positions (Z.of_nat k) M) ->
+  exists i, z = Z.of_nat (k + i) /\ nth_error M i = Some true.
+Proof.
+  induction M as [|b M IH]; intros k z H; [destruct H|].
+  cbn [s_positions] in H. apply in_app_iff in H. destruct H as [H|H].
+  - destruct b; [|destruct H]. destruct H as [<-|[]]. exists O. rewrite Nat.add_0_r. auto.
+  - replace (Z.of_nat k + 1) with (Z.of_nat (S k)) in H by lia.
+    destruct (IH (S k) z H) as (i & -> & Hi). exists (S i). split; [f_equal; lia | exact Hi].
+Qed.
+
+Theorem src_params_recarray_sel st m ps vec vals sources :
+  Consistent st (mp_gps m) ps -> matrix_ok m -> aliases_ok m ->
+  s_values (table_of ps) vec = Some vals ->
+  (forall arr, sources = Some (inl arr) -> forall z, In z arr -> 0 <= z < Z.of_nat (length (mp_src m))) ->
+  exists uniq rows,
+    create_src_params_recarray m vec sources = Ok (uniq, rows)
+    /\ unique_source_param_names m = Ok uniq
+    /\ map fst rows = sel_idxs m sources
+    /\ (forall smidx cells, In (smidx, cells) rows ->
+          exists i arow, smidx = Z.of_nat i /\ nth_error (mp_names m) i = Some arow
+            /\ cells = map (s_cell arow vals (s_gpidxs 0 0 (table_of ps))) uniq).
+Proof.
+  intros HC (HM1 & HM2) HA HV Harr.
+  pose proof (Consistent_elim _ _ _ HC) as (HM & _ & _ & _ & (_ & HFL & _)).
+  destruct (values_perm ps vec vals HV) as (_ & _ & Lvec).
+  unfold create_src_params_recarray.
+  assert (Hb : rec_len_bad (n_floating_params (mp_gps m)) (zlen vec) = false).
+  { apply K_rec_len_bad. unfold n_floating_params, zlen. rewrite HFL, Lvec. reflexivity. }
+  rewrite Hb. unfold unique_source_param_names. rewrite np_select_same by exact HM1. cbn [bind].
+  set (uniq := np_unique (concat (map somes (mask_select (mp_names m) (mp_src m))))).
+  assert (Esel : match sources with
+                 | Some (inl arr) => arr
+                 | Some (inr srcs) => get_src_model_idxs m (Some srcs)
+                 | None => get_src_model_idxs m None
+                 end = sel_idxs m sources).
+  { destruct sources as [[arr|srcs]|]; cbn [sel_idxs]; [reflexivity | | apply src_idxs_positions].
+    unfold get_src_model_idxs. fold (get_src_model_idxs m None). rewrite src_idxs_positions. reflexivity. }
+  rewrite Esel.
+  set (P := fun (smidx : Z) (row : Z * list cell) =>
+              exists i arow, smidx = Z.of_nat i /\ nth_error (mp_names m) i = Some arow
+                /\ row = (smidx, map (s_cell arow vals (s_gpidxs 0 0 (table_of ps))) uniq)).
+  destruct (mapM_Forall2 (src_row m vec uniq) P (sel_idxs m sources)) as (rows & Hrows & HF).
+  { intros z Hz.
+    assert (Hi : exists i, z = Z.of_nat i /\ (i < length (mp_src m))%nat).
+    { destruct sources as [[arr|srcs]|]; cbn [sel_idxs] in Hz.
+      - specialize (Harr arr eq_refl z Hz). exists (Z.to_nat z). split; lia.
+      - apply filter_In in Hz. destruct Hz as (Hz & _).
+        destruct (s_positions_range _ 0 z Hz) as (i & -> & Hi). exists i. split; [reflexivity|]. apply nth_error_Some. congruence.
+      - destruct (s_positions_range _ 0 z Hz) as (i & -> & Hi). exists i. split; [reflexivity|]. apply nth_error_Some. congruence. }
+    destruct Hi as (i & -> & Hlt).
+    destruct (nth_error (mp_names m) i) as [arow|] eqn:Hn; [|apply nth_error_None in Hn; lia].
+    assert (Hrow : length arow = length ps).
+    { rewrite Forall_forall in HM2. rewrite (HM2 arow (nth_error_In _ _ Hn)). symmetry. eapply mapM_Ok_length; exact HM. }
+    assert (Hal : NoDup (somes arow)) by (unfold aliases_ok in HA; rewrite Forall_forall in HA; apply HA; eapply nth_error_In; eauto).
+    eexists. split; [apply (src_row_ok st m ps HC arow vec vals Hrow HV Hal uniq i Hn)|].
+    exists i, arow. auto. }
+  rewrite Hrows. cbn [bind]. exists uniq, rows. split; [reflexivity|]. split; [reflexivity|]. split.
+  - clear - HF. induction HF as [|z row l r (i & a & _ & _ & ->) _ IH]; [reflexivity|]. cbn. f_equal. exact IH.
+  - intros smidx cells Hin. clear - HF Hin. induction HF as [|z row l r Hp _ IH]; [destruct Hin|].
+    destruct Hin as [E|Hin]; [|auto]. destruct Hp as (i & a & -> & H2 & H3). rewrite H3 in E. inversion E; subst. exists i, a. auto.
+Qed.
+
+(* get_src_model_idxs(sources): the requested models among the source models, in model order *)
+Theorem src_idxs_selection m srcs :
+  get_src_model_idxs m (Some srcs) = filter (fun smidx => mem smidx srcs) (s_positions 0 (mp_src m)).
+Proof. unfold get_src_model_idxs. fold (get_src_model_idxs m None). rewrite src_idxs_positions. reflexivity. Qed.
+
+(* ------------------------------------------------------------------ get_local_param_is_global_floating_param_mask *)
+Lemma col_has_spec rows j name :
+  col_has rows j name = true <-> exists arow, In arow rows /\ nth_error arow j = Some (Some name).
+Proof.
+  induction rows as [|r rows IH]; cbn [col_has]; [split; [discriminate | intros (? & [] & _)]|].
+  destruct (nth_error r j) as [[a|]|] eqn:E.
+  - rewrite orb_true_iff, IH, Z.eqb_eq. split.
+    + intros [->|(x & Hx & Hn)]; [exists r; split; [left; reflexivity | assumption] | exists x; split; [right; assumption | assumption]].
+    + intros (x & [<-|Hx] & Hn); [left; congruence | right; eauto].
+  - rewrite IH. split; intros (x & Hx & Hn); [exists x; split; [right; assumption | assumption]|].
+    destruct Hx as [<-|Hx]; [congruence | eauto].
+  - rewrite IH. split; intros (x & Hx & Hn); [exists x; split; [right; assumption | assumption]|].
+    destruct Hx as [<-|Hx]; [congruence | eauto].
+Qed.
+
+Lemma in_positions M : forall k j,
+  In (Z.of_nat (k + j)) (s_positions (Z.of_nat k) M) <-> nth_error M j = Some true.
+Proof.
+  induction M as [|b M IH]; intros k j; [cbn; split; [tauto | destruct j; discriminate]|].
+  cbn [s_positions]. rewrite in_app_iff. replace (Z.of_nat k + 1) with (Z.of_nat (S k)) by lia.
+  destruct j as [|j]; cbn [nth_error].
+  - rewrite Nat.add_0_r. split.
+    + intros [H|H]; [destruct b; [reflexivity | destruct H]|].
+      destruct (s_positions_range _ _ _ H) as (i & Hi & _). lia.
+    + intros H; inversion H; subst. left. left. reflexivity.
+  - replace (k + S j)%nat with (S k + j)%nat by lia. rewrite <- (IH (S k) j). split; [|intros H; right; exact H].
+    intros [H|H]; [|assumption]. destruct b; [|destruct H]. destruct H as [H|[]]. lia.
+Qed.
+
+Theorem local_is_floating_mask_ok st m ps names :
+  Consistent st (mp_gps m) ps -> matrix_ok m ->
+  length (local_is_floating_mask m names) = length names
+  /\ forall k name, nth_error names k = Some name ->
+       (nth_error (local_is_floating_mask m names) k = Some true <->
+        exists arow j p, In arow (mp_names m) /\ nth_error arow j = Some (Some name)
+                         /\ nth_error ps j = Some p /\ p_isfixed p = false).
+Proof.
+  intros HC (HM1 & HM2). pose proof (Consistent_elim _ _ _ HC) as (HM & _ & _ & HK & _).
+  assert (Lps : length (ps_params (mp_gps m)) = length ps) by (symmetry; eapply mapM_Ok_length; exact HM).
+  unfold local_is_floating_mask. split; [apply map_length|].
+  intros k name Hk. rewrite nth_error_map, Hk. cbn [option_map].
+  set (ncol := match mp_names m with [] => O | row :: _ => length row end).
+  split.
+  - intros H. inversion H as [H1]. clear H. apply existsb_exists in H1. destruct H1 as (j & Hj & Hb).
+    apply andb_true_iff in Hb. destruct Hb as (Hc & Hf). apply col_has_spec in Hc. destruct Hc as (arow & Hin & Hn).
+    apply mem_In in Hf. unfold floating_params_idxs, floating_mask, argwhere in Hf. rewrite argwhere_positions, HK in Hf.
+    apply (in_positions _ 0 j) in Hf. rewrite nth_error_map, nth_error_map in Hf.
+    destruct (nth_error ps j) as [p|] eqn:Ep; [|discriminate]. cbn in Hf.
+    exists arow, j, p. repeat split; auto. destruct (p_isfixed p); [discriminate | reflexivity].
+  - intros (arow & j & p & Hin & Hn & Hp & Hf). f_equal. apply existsb_exists. exists j. split.
+    + apply in_seq. split; [lia|]. cbn.
+      assert (Hlen : length arow = length ps) by (rewrite Forall_forall in HM2; rewrite (HM2 arow Hin); exact Lps).
+      assert (Hj : (j < length arow)%nat) by (apply nth_error_Some; congruence).
+      subst ncol. destruct (mp_names m) as [|r0 R]; [destruct Hin|].
+      rewrite Forall_forall in HM2. rewrite (HM2 r0 (or_introl eq_refl)), Lps. lia.
+    + apply andb_true_iff. split; [apply col_has_spec; eauto|].
+      apply mem_In. unfold floating_params_idxs, floating_mask, argwhere. rewrite argwhere_positions, HK.
+      apply (in_positions _ 0 j). rewrite nth_error_map, nth_error_map, Hp. cbn. rewrite Hf. reflexivity.
+Qed.
